@@ -23,7 +23,7 @@ SLICES = {
     "unload":    (2, "K2_unload", 1, 1, 0, 0, 0, "FALSE", ["none", "shutdown_wait"], [], 2),
     "taskcrash": (2, "K2_crash", 2, 2, 0, 0, 0, "FALSE", ["none", "shutdown_wait"], [], 3),
     "crash_tmo": (2, "K2_ok", 1, 1, 1, 1, 0, "TRUE", ["none", "shutdown_wait"], [], 3),
-    "mix3":      (3, "K3_mix", 2, 2, 0, 1, 1, "TRUE", ["shutdown_wait", "shutdown_nowait"], [], 3),
+    "mix3":      (3, "K3_mix", 1, 1, 0, 0, 1, "FALSE", ["shutdown_wait", "shutdown_nowait"], [], 2),
 }
 QUICK = {"C01": ["cancel", "timeout0", "crash", "kill", "init"], "C02": ["crash", "crash2", "init", "unload"],
          "C03": ["cancel", "timeout0"], "C04": ["badarg", "unload"], "C05": ["timeout0", "cancel"], "C06": ["kill"], "C20": ["huge"],
